@@ -606,6 +606,7 @@ def m_unwrap(eng, call, args):
     want = 1 if "Option" in n else 0
     call["pre"] = ("variant", v, want)
     call["post_facts"] = [(mk("discr", v), "eq", want)]       # having returned, the value was the success variant
+    call["post_refine"] = (v, want)
     if v.op == "enum":
         for a in v.args[1]:
             if a[0] == want:
